@@ -80,6 +80,7 @@ def run_history(hist, alphabet="main"):
         srv = SS.VPopen.instances[-1].srv
         levels = [[]]
         have_model = False      # reference: a model is current (last solve said sat, nothing changed)
+        query = None
         viol = None
         obs = None
 
@@ -96,6 +97,7 @@ def run_history(hist, alphabet="main"):
             last = i == len(hist) - 1
             k = ev[0]
             nerr, ndes = len(srv.solver.errors), len(srv.desync)
+            pending_query, query = query, None      # formula of a satisfiable is_sat made by the previous event
             try:
                 if k == "add":
                     solver.add_assertion(F[ev[1]])
@@ -159,13 +161,19 @@ def run_history(hist, alphabet="main"):
                         want = not truth(fs + [env.formula_manager.Not(f)])
                     obs = "%s=%s" % (k, r)
                     have_model = False
+                    if k == "is_sat" and want:
+                        # the frame of a satisfiable one-shot query stays open until the next command, so that
+                        # its model can be read: get_model / get_value right after it are legal
+                        have_model = True
+                        query = ev[1]
                     if r != want:
                         viol = ("verdict", "%s(%s) returned %r, brute force says %r" % (k, ev[1], r, want))
                 elif k == "value":
                     if not have_model:
                         return Outcome(legal=False)
+                    query = pending_query
                     t = T[ev[1]]
-                    if not set(free_symbols(t)) <= set().union(*[set(free_symbols(F[n])) for n in live()] or [set()]):
+                    if not set(free_symbols(t)) <= set().union(*[set(free_symbols(F[n])) for n in live() + ([pending_query] if pending_query else [])] or [set()]):
                         return Outcome(legal=False)     # only terms over declared symbols
                     v = solver.get_value(t)
                     want = compile_term(t)[1](srv.solver.model)
@@ -176,20 +184,22 @@ def run_history(hist, alphabet="main"):
                 elif k == "model":
                     if not have_model:
                         return Outcome(legal=False)
+                    query = pending_query
                     model = solver.get_model()
                     obs = "model"
                     # every symbol of the live assertions that the solver was told about (a symbol that
                     # simplification removed before the assertion was sent has no reported value)
                     told = srv.solver.it.all_funs()
                     need = {}
-                    for n in live():
+                    scope = live() + ([pending_query] if pending_query else [])
+                    for n in scope:
                         for sn, ss in free_symbols(F[n]).items():
                             if sn in told and not (isinstance(ss, tuple) and ss[0] in ("Fun", "Sort")):
                                 need[sn] = ss
                     assigned = {kk.symbol_name(): vv for kk, vv in model}
                     for sn in sorted(need):
                         if sn not in assigned:
-                            viol = ("model", "the model does not assign %s (live assertions %s)" % (sn, live()))
+                            viol = ("model", "the model does not assign %s (live assertions %s)" % (sn, scope))
                             break
                         got = const_to_value(assigned[sn])[1]
                         if got != srv.solver.model[sn]:
@@ -197,7 +207,7 @@ def run_history(hist, alphabet="main"):
                                     % (sn, got, srv.solver.model[sn]))
                             break
                     if not viol:
-                        for n in live():
+                        for n in scope:
                             if any(isinstance(ss, tuple) and ss[0] in ("Fun", "Sort") for ss in free_symbols(F[n]).values()):
                                 continue
                             if not model.satisfies(F[n]):
@@ -224,7 +234,7 @@ def run_history(hist, alphabet="main"):
                 return Outcome(violation=(sig(viol[0]), "history %s: %s" % (list(hist), viol[1])))
         canon = (tuple(tuple(sorted(s.symbol_name() for s in l)) for l in solver.declared_vars),
                  tuple(tuple(sorted(str(s) for s in l)) for l in solver.declared_sorts),
-                 solver.pending_pop, have_model,
+                 solver.pending_pop, have_model, query,
                  tuple((tuple(sorted(lv["funs"])), tuple(sorted(lv["sorts"])), len(lv["asserts"]))
                        for lv in srv.solver.it.levels),
                  srv.solver.model is not None, bytes(srv.pending()),
